@@ -61,6 +61,7 @@ SPEC_FUNS = {
     'gcd': (2, 'Nat.gcd x0 x1'),
     'isqrt': (1, 'Nat.sqrt x0'),
     'pow': (2, 'x0 ^ x1'),
+    'jac': (2, '(jacobiSym (x0 : ℤ) x1 + 1).toNat'),     # Jacobi symbol (x0 | x1), encoded as J + 1 in {0, 1, 2}
 }
 SPEC_PREDS = {
     'issquare': (1, '∃ k : Nat, k * k = x0'),
@@ -154,6 +155,7 @@ LEAN_HEADER = '''import Mathlib.Tactic
 import Mathlib.Data.Nat.GCD.Basic
 import Mathlib.Data.Nat.ModEq
 import Mathlib.Data.Nat.Sqrt
+import Mathlib.NumberTheory.LegendreSymbol.JacobiSymbol
 set_option linter.unusedVariables false
 set_option maxHeartbeats 1000000
 
